@@ -675,9 +675,15 @@ pub fn main(args: &[String]) {
             prefix = deep;
             let after = ["RLE", "LRE", "PDF", "PDF", "L", "R", "AL", "EN", "ON", "RLO"];
             suffix = (0..1 + o.rng.below(5)).map(|j| { let sname = *o.rng.pick(&after); Item::Ch(rep(sym(sname), j)) }).collect();
+            // usually: an embedding control right after the PDI, then a letter whose level shows the state
+            if o.rng.chance(3, 4) {
+                let first = if o.rng.chance(1, 2) { 0x202Cu32 } else { 0x202B };
+                suffix.insert(0, Item::Ch(rep(sym(if o.rng.chance(1, 2) { "L" } else { "R" }), 0)));
+                suffix.insert(0, Item::Ch(first));
+            }
             let unclosed = [0x202Au32, 0x202B, 0x202D, 0x202E];
-            if o.rng.chance(1, 2) { c1.insert(0, Item::Ch(*o.rng.pick(&unclosed))); c1.push(Item::Ch(rep(sym("L"), 0))); }
-            if o.rng.chance(1, 2) { c2.insert(0, Item::Ch(*o.rng.pick(&unclosed))); c2.push(Item::Ch(rep(sym("R"), 0))); }
+            if o.rng.chance(3, 4) { c1.insert(0, Item::Ch(*o.rng.pick(&unclosed))); c1.push(Item::Ch(rep(sym("L"), 0))); }
+            if o.rng.chance(1, 4) { c2.insert(0, Item::Ch(*o.rng.pick(&unclosed))); c2.push(Item::Ch(rep(sym("R"), 0))); }
             d = '0';
         }
         let enc = if o.rng.chance(1, 5) { 16 } else { 8 };
